@@ -587,7 +587,7 @@ impl Compiler {
                     if let Some(result_register) = loop_result_register {
                         self.push_op(SetNull, &[result_register]);
                     }
-                    self.push_jump_back_op(JumpBack, &[], loop_start_ip);
+                    self.push_jump_back_op(JumpBack, &[], loop_start_ip)?;
 
                     CompileNodeOutput::none()
                 }
@@ -2003,7 +2003,7 @@ impl Compiler {
         self.push_op(Op::ExportEntry, &[output_register]);
 
         // Jump back to get more iterator output
-        self.push_jump_back_op(Op::JumpBack, &[], iter_start_ip);
+        self.push_jump_back_op(Op::JumpBack, &[], iter_start_ip)?;
 
         // Finished, update the IterNextTemp offset and clean up the temporary registers
         self.update_offset_placeholder(iter_finished_offset)?;
@@ -4639,7 +4639,7 @@ impl Compiler {
             ),
         )?;
 
-        self.push_jump_back_op(JumpBack, &[], loop_start_ip);
+        self.push_jump_back_op(JumpBack, &[], loop_start_ip)?;
         self.pop_loop_and_update_placeholders()?;
 
         self.truncate_register_stack(stack_count)?;
@@ -4706,7 +4706,7 @@ impl Compiler {
             ),
         )?;
 
-        self.push_jump_back_op(JumpBack, &[], loop_start_ip);
+        self.push_jump_back_op(JumpBack, &[], loop_start_ip)?;
 
         if body_result.is_temporary {
             self.pop_register()?;
@@ -4728,10 +4728,16 @@ impl Compiler {
         Ok(result)
     }
 
-    fn push_jump_back_op(&mut self, op: Op, bytes: &[u8], target_ip: usize) {
+    fn push_jump_back_op(&mut self, op: Op, bytes: &[u8], target_ip: usize) -> Result<()> {
         let offset = self.bytes.len() + 3 + bytes.len() - target_ip;
-        self.push_op_without_span(op, bytes);
-        self.push_bytes(&(offset as u16).to_le_bytes());
+        match u16::try_from(offset) {
+            Ok(offset_u16) => {
+                self.push_op_without_span(op, bytes);
+                self.push_bytes(&offset_u16.to_le_bytes());
+                Ok(())
+            }
+            Err(_) => self.error(ErrorKind::JumpOffsetIsTooLarge(offset)),
+        }
     }
 
     // For offset placeholders to work correctly,
